@@ -228,16 +228,48 @@ def one_case(ctx: Ctx, stream: str, i: int, max_nside: int) -> None:
             ctx.count('acquisition')
 
     # ---- P.T @ P = diagonal of hit counts -------------------------------------------------------------------------
-    if npix * len(kind) <= 200:
-        ptp = CompositionOperator([proj.T, proj])
-        hits = np.bincount(pix.ravel(), minlength=npix).astype(np.float64)
-        want = np.kron(np.eye(len(kind)), np.diag(hits))
-        for label, op in (('unreduced', ptp), ('reduced', ptp.reduce())):
-            st, m = safe(gen.dense, op)
+    ptp = proj.T @ proj          # as a user writes it: `@` flattens the two chains, so that the rules see every pair
+    hits = np.bincount(pix.ravel(), minlength=npix).astype(np.float64)
+    st_r, red = safe(ptp.reduce)
+    if st_r != 'ok':
+        ctx.fail(stream, i, f'ptp-raises:reduce:{st_r}', str(red)[:200], cfg)
+    elif not ambiguous.any():
+        from furax._base.diagonal import DiagonalOperator
+        # (a) the reduced operator is a diagonal operator: its values ARE the hit counts, whatever the map size
+        diag_ops = [o for o in ([red] + list(getattr(red, 'operands', []))) if isinstance(o, DiagonalOperator)]
+        if len(diag_ops) != 1:
+            ctx.fail(stream, i, 'ptp-not-simplified', f'reduce(P.T @ P) contains {len(diag_ops)} diagonal operators: '
+                     f'{[type(o).__name__ for o in getattr(red, "operands", [red])]}', cfg)
+        else:
+            dvals = np.asarray(diag_ops[0]._diagonal, dtype=np.float64).ravel()
+            if dvals.shape != hits.shape or not np.array_equal(dvals, hits):
+                nbad = int((dvals != hits).sum()) if dvals.shape == hits.shape else -1
+                ctx.fail(stream, i, 'ptp-not-hit-counts:reduced', f'the diagonal of reduce(P.T @ P) differs from the hit '
+                         f'counts at {nbad} of {npix} pixels ({int((hits > 0).sum())} pixels hit by '
+                         f'{pix.size} detector-samples)', cfg)
+            ctx.count('ptp:reduced-diagonal-compared')
+        # (b) both forms applied to maps: every component is multiplied by the hit counts
+        probe = [np.array([rng.choice([1.0, 2.0, 3.0, -1.0, 5.0]) for _ in range(npix)]) for _ in kind]
+        xmap = cls(*[jnp.asarray(c, dtype=dt) for c in probe])
+        for label, op in (('unreduced', ptp), ('reduced', red)):
+            st, ym = safe(op.mv, xmap)
             if st != 'ok':
-                ctx.fail(stream, i, f'ptp-raises:{label}:{st}', str(m)[:200], cfg)
-            elif not ambiguous.any() and not np.allclose(m, want, atol=1e-3 if not x64 else 1e-8):
-                ctx.fail(stream, i, f'ptp-not-hit-counts:{label}', 'P.T @ P is not the diagonal of hit counts', cfg)
+                ctx.fail(stream, i, f'ptp-raises:{label}:{st}', str(ym)[:200], cfg)
+                continue
+            for c, k in enumerate(kind):
+                got = np.asarray(getattr(ym, k.lower()), dtype=np.float64)
+                if got.shape != hits.shape or not np.allclose(got, hits * probe[c], atol=1e-3 if not x64 else 1e-8):
+                    ctx.fail(stream, i, f'ptp-not-hit-counts:{label}', f'(P.T @ P)(m) is not hit-counts × m on component {k}', cfg)
+                    break
+        # (c) small maps: the whole matrix
+        if npix * len(kind) <= 200:
+            want = np.kron(np.eye(len(kind)), np.diag(hits))
+            for label, op in (('unreduced', ptp), ('reduced', red)):
+                st, m = safe(gen.dense, op)
+                if st != 'ok':
+                    ctx.fail(stream, i, f'ptp-raises:{label}:{st}', str(m)[:200], cfg)
+                elif not np.allclose(m, want, atol=1e-3 if not x64 else 1e-8):
+                    ctx.fail(stream, i, f'ptp-not-hit-counts:{label}', 'P.T @ P is not the diagonal of hit counts', cfg)
         ctx.count('ptp')
     ctx.count(f'kind:{kind}')
     ctx.count(f'ndir:{ndir}')
